@@ -17,9 +17,10 @@ type PointInfo struct {
 
 // Run is the record of one execution.
 type Run struct {
-	Points  []PointInfo
-	Choices []int
-	Panics  []string // panic values of goroutine bodies (a body panicking is reported, not raised)
+	Points   []PointInfo
+	Choices  []int
+	Panics   []string // panic values of goroutine bodies (a body panicking is reported, not raised)
+	Deadlock bool     // unfinished goroutines remained but none was enabled
 }
 
 // PreemptionsBefore counts the preemptions taken by choices[0:i].
@@ -37,7 +38,12 @@ type event struct {
 	g     int
 	done  bool
 	label string
+	wait  func() bool // non-nil: the goroutine is blocked until wait() is true
 }
+
+// Current is the scheduler of the execution in progress (nil outside Execute). Cooperative shims of
+// synchronisation primitives (package syncshim) route their scheduling points through it.
+var Current *S
 
 // S is one scheduler instance (one execution).
 type S struct {
@@ -45,6 +51,23 @@ type S struct {
 	events chan event
 	cur    int
 	active bool
+}
+
+// Active tells whether an execution is in progress on this scheduler.
+func (s *S) Active() bool { return s != nil && s.active }
+
+// Wait parks the running goroutine until ready() holds; it is re-evaluated at every scheduling decision.
+// A goroutine whose condition is false is not enabled; if nobody is enabled the run is a deadlock.
+func (s *S) Wait(label string, ready func() bool) {
+	if s == nil || !s.active {
+		if !ready() {
+			panic("sched: blocking wait outside a controlled execution")
+		}
+		return
+	}
+	g := s.cur
+	s.events <- event{g: g, label: label, wait: ready}
+	<-s.resume[g]
 }
 
 // Point is a scheduling point; it is called by whichever goroutine is running.
@@ -80,20 +103,29 @@ func Execute(bodies []func(s *S), prefix []int) *Run {
 	}
 	cur := -1 // nobody has run yet
 	label := "start"
+	waiting := make([]func() bool, n)
+	Current = s
+	defer func() { Current = nil }()
 	for {
+		ready := func(g int) bool { return !finished[g] && (waiting[g] == nil || waiting[g]()) }
 		var enabled []int
-		if cur >= 0 && !finished[cur] {
+		if cur >= 0 && ready(cur) {
 			enabled = append(enabled, cur)
 		}
 		for g := 0; g < n; g++ {
-			if !finished[g] && g != cur {
+			if g != cur && ready(g) {
 				enabled = append(enabled, g)
 			}
 		}
 		if len(enabled) == 0 {
+			for g := 0; g < n; g++ {
+				if !finished[g] {
+					run.Deadlock = true // parked goroutines are abandoned
+				}
+			}
 			break
 		}
-		still := cur >= 0 && !finished[cur]
+		still := cur >= 0 && ready(cur)
 		choice := 0
 		i := len(run.Points)
 		if i < len(prefix) {
@@ -106,12 +138,14 @@ func Execute(bodies []func(s *S), prefix []int) *Run {
 		run.Choices = append(run.Choices, choice)
 		cur = enabled[choice]
 		s.cur = cur
+		waiting[cur] = nil
 		s.resume[cur] <- struct{}{}
 		ev := <-s.events
 		if ev.done {
 			finished[ev.g] = true
 			label = fmt.Sprintf("g%d done", ev.g)
 		} else {
+			waiting[ev.g] = ev.wait
 			label = fmt.Sprintf("g%d@%s", ev.g, ev.label)
 		}
 	}
